@@ -1,6 +1,7 @@
 import Driver.C02
 import Driver.C20
 import Driver.C09
+import Driver.C10
 open Driver
 
 def handle (line : String) : String :=
@@ -8,6 +9,10 @@ def handle (line : String) : String :=
   | "c02" :: args => c02 args
   | "c20" :: args => c20 args
   | "c09" :: args => c09 args
+  | "c10" :: args => c10 args
+  | "c12" :: args => c12 args
+  | "c14" :: args => c10 args
+  | "c14v" :: args => c14v args
   | _ => "bad-op"
 
 partial def loop (h : IO.FS.Stream) (out : IO.FS.Stream) : IO Unit := do
